@@ -188,11 +188,16 @@ def runCase (s : St) : String :=
       let cause := if col && st.fail.isSome then "-"
         else if st.fail.isNone && st.quirks == 0 then "-"
         else if (!onB && s.hasE && effOk && stE.isNone) || (!fit && rc && !streamEq) then "char-splitting-range-boundary"
-        else if st.fail.isNone && errBoth then "error-recovery"   -- erroneous on both sides: ERROR/MISSING nodes sit at the left image of a seam
+        -- erroneous on both sides: ERROR/MISSING nodes may sit at the other image of a seam than ψ says (which image a
+        -- repaired node takes depends on the repair) — excused ONLY while every such boundary lies in the closure of a
+        -- range that includes text.  (wave 9, C13-r8) A boundary on an empty range AWAY from included text — a MISSING
+        -- token placed on a leading empty range — is not a matter of which repair was chosen: where a node sits must be
+        -- included text even when the recovery choices differ.
+        else if st.fail.isNone && errBoth && st.quirkPos.all (fun p => inClosure es p) then "error-recovery"
         else if st.fail.isNone then
           -- a boundary on a range with start = end (repaired by fixes/C13-empty-range-boundary.diff), or only on
           -- ranges that start at/after the end of the document (not repaired)
-          (if st.quirkPos.any (fun p => (trueEmptyPositions given).contains p &&
+          (if (if errBoth then st.quirkPos.filter (fun p => !inClosure es p) else st.quirkPos).any (fun p => (trueEmptyPositions given).contains p &&
                 !(given.any fun r => r.start_byte == p && r.end_byte > r.start_byte && r.start_byte ≥ s.doc.size))
            then "empty-range-boundary"
            else "range-beyond-eof-boundary")
